@@ -1892,5 +1892,13 @@ def contact_tolerance(ctx):
     return res
 
 
-RULES = [contact_tolerance, conic_branch, chebyshev_edge, lossless_without_k, quadratic_stable, flat_base, newton_unconverged, c01_media_chain, no_stale, records, scatter_unit, snell_law, reflect_law, align_normal, on_surface, normal_gradient,
+
+def c01_setters(ctx):
+    """shared with C01: the editing operations leave the geometry object that
+    carries the prescribed shape (a radius edit does not replace an asphere
+    by a plane) - the traced surface is the prescribed one"""
+    from .C01 import setter_writes as _r
+    return _r(ctx)
+
+RULES = [c01_setters, contact_tolerance, conic_branch, chebyshev_edge, lossless_without_k, quadratic_stable, flat_base, newton_unconverged, c01_media_chain, no_stale, records, scatter_unit, snell_law, reflect_law, align_normal, on_surface, normal_gradient,
          frames, trace_order, same_medium, nonfinite]
